@@ -13,6 +13,7 @@ EOVERFLOW == 75 EINVAL == 22    EILSEQ == 84    ERANGE == 34   EBADF == 9
 HUGE  == -1          \* abstract size "above the RSIZE limit of the family"
 NULLP == 0           \* arena offsets are 1..N
 UNK   == -1          \* object size not known to the library
+NOSTAT == -7777        \* the function has no status channel (returns a count / bool / pointer only)
 AnyV  == -424242     \* "unconstrained" marker in ret / o1 sets
 
 Min(a, b) == IF a < b THEN a ELSE b
